@@ -8,46 +8,6 @@ Definition run_C20 (op : bytes) (input : arg) : arg :=
     AL [AB (report (arg_bytes (arg_nth 0 input)) (info_of_arg (arg_nth 1 input))); AZ 0]
   else AL [].
 
-(* expected indentation of each output line, from the structure alone *)
-Fixpoint indents_of (i : info) (indent : nat) : list nat :=
-  match i with
-  | Info _ a c => indent :: map (fun _ => (indent + 2)%nat) a
-                  ++ flat_map (fun ch => indents_of ch (indent + 2)) c
-  end.
-
-Fixpoint has_prefix_spaces (n : nat) (l : bytes) : bool :=
-  match n with
-  | O => true
-  | S n' => match l with 32 :: r => has_prefix_spaces n' r | _ => false end
-  end.
-
-Fixpoint lines_indented (ind : list nat) (ls : list bytes) : bool :=
-  match ind, ls with
-  | [], [] => true
-  | n :: ind', l :: ls' => has_prefix_spaces n l && lines_indented ind' ls'
-  | _, _ => false
-  end.
-
-(* a control character in the output: C0 (other than the LF terminators), DEL, a C1
-   rune, or a stray byte in 0x80..0x9F *)
-Definition bad_rune (x : nat * bool * N * nat) : bool :=
-  match x with
-  | (_, valid, r, _) => valid && (((r <? 32) && negb (r =? 10)) || (r =? 127) || in_range 128 159 r)
-  end.
-
-Fixpoint stray_c1 (fuel : nat) (s : bytes) : bool :=
-  match fuel with
-  | O => false
-  | S f =>
-      match s with
-      | [] => false
-      | b :: _ =>
-          match decode_rune s with
-          | (v, _, sz) => (negb v && in_range 128 159 b) || stray_c1 f (drop sz s)
-          end
-      end
-  end.
-
 Definition ends_with_lf (s : bytes) : bool :=
   match rev s with 10 :: _ => true | _ => false end.
 
